@@ -73,7 +73,9 @@ def run(ctx: Ctx) -> None:
             ctx.violation(f"C08:{name}:functional:{what}", f"module differs from the unit-scaled function with its own parameters "
                           f"and configured options ({what})", key)
 
-    def versus_twin(name: str, key: Dict[str, Any], m: nn.Module, twin: nn.Module, x: torch.Tensor, tol: float = 1e-9) -> None:
+    lin_scalars: List[Any] = []
+
+    def versus_twin(name: str, key: Dict[str, Any], m: nn.Module, twin: nn.Module, x: torch.Tensor, tol: float = 1e-9) -> List[float]:
         """same parameters; output and every gradient must be a positive scalar multiple, same output shape"""
         twin.load_state_dict(m.state_dict())
         twin.train(m.training)
@@ -83,13 +85,15 @@ def run(ctx: Ctx) -> None:
         with ctx.guard(f"C08:{name}:twin", key):
             a = grads(lambda: m(xi), ([xi] if x.is_floating_point() else []) + list(m.parameters()))
             b = grads(lambda: twin(xj), ([xj] if x.is_floating_point() else []) + list(twin.parameters()))
+        scal: List[float] = []
         if a is None or b is None:
-            return
+            return scal
         if a[0].shape != b[0].shape:
             ctx.violation(f"C08:{name}:twin:shape", "output shape differs from the same-named torch.nn module", key,
                           [list(a[0].shape), list(b[0].shape)])
-            return
+            return scal
         s, res = ops.fit(a[0], b[0])
+        scal.append(s)
         if not (res <= tol and s > 0) and not math.isnan(s):
             ctx.violation(f"C08:{name}:twin:output", "output is not a positive scalar multiple of the torch.nn module's", key,
                           {"scalar": s, "resid": res})
@@ -97,10 +101,12 @@ def run(ctx: Ctx) -> None:
             if u is None or v is None:
                 continue
             s, res = ops.fit(u, v)
+            scal.append(s)
             if not math.isnan(s) and not (res <= tol and s > 0):
                 ctx.violation(f"C08:{name}:twin:gradient", "a gradient is not a positive scalar multiple of the torch.nn module's", key,
                               {"scalar": s, "resid": res})
                 break
+        return scal
 
     def check_tags(name: str, key: Dict[str, Any], m: nn.Module, want: Dict[str, str]) -> None:
         for pn, p in m.named_parameters():
@@ -204,7 +210,11 @@ def run(ctx: Ctx) -> None:
                     m = randomise(cls(fi, fo, bias=bias, constraint=c))
                     x = torch.randn(rng.choice([(4, fi), (2, 3, fi), (fi,)]), dtype=dt)
                     versus_functional(cls.__name__, key, m, x, lambda z: fnl(z, m.weight, m.bias, c))
-                    versus_twin(cls.__name__, key, m, nn.Linear(fi, fo, bias=bias).to(dt), x)
+                    sc = versus_twin(cls.__name__, key, m, nn.Linear(fi, fo, bias=bias).to(dt), x)
+                    if len(sc) == (4 if bias else 3):
+                        # [output, input gradient, weight gradient, (bias gradient)] vs the scalars of C01/C02 (the model's)
+                        lin_scalars.append((key, sc, {"k": "scale", "op": "linear" if cls is uu.Linear else "linear_readout",
+                                                      "fan_out": fo, "fan_in": fi, "numel": x.numel(), "constraint": c}))
                     check_tags(cls.__name__, key, m, {"weight": tag, "bias": "bias"})
             check_init(cls.__name__, {"module": cls.__name__, "fresh": True}, lambda: cls(256, 128, bias=True))
         # default constraints
@@ -388,6 +398,23 @@ def run(ctx: Ctx) -> None:
                             return U.residual_add(r, s, tau=t2)
 
                         versus_functional("TransformerLayer", key, m, x, layer_fn)
+        from unit_scaling.core.functional import transformer_residual_scaling_rule as _rule
+        for layers in (4, 2, 3, 1, 5):
+            key = {"module": "TransformerStack/Decoder", "layers": layers, "rule": "default (shared default argument)"}
+            ctx.count(key, bucket="TransformerStack")
+            with ctx.guard("C08:TransformerStack:taus", key):
+                fresh = _rule()
+                want_t = [fresh(i, 2 * layers) for i in range(2 * layers)]
+                for mk_ in (lambda: uu.TransformerDecoder(hidden_size=8, vocab_size=11, layers=layers, heads=2).layers,
+                            lambda: __import__("unit_scaling._modules", fromlist=["x"]).TransformerStack(
+                                layers=layers, hidden_size=8, heads=2, is_causal=False, dropout_p=0.0)):
+                    st = mk_()
+                    if st is None:
+                        continue
+                    got_t = [t_ for l_ in st for t_ in (l_.mhsa_tau, l_.mlp_tau)]
+                    if got_t != want_t:
+                        ctx.violation("C08:TransformerStack:taus", "a stack built after stacks of another depth does not carry the "
+                                      "residual rule's taus for its own depth", key, {"got": got_t[:4], "want": want_t[:4]})
         for layers in (1, 2, 3):
             key = {"module": "TransformerDecoder", "layers": layers}
             ctx.count(key, bucket="TransformerDecoder")
@@ -445,6 +472,16 @@ def run(ctx: Ctx) -> None:
                     pass
                 except Exception as e:  # noqa
                     ctx.violation("C08:depth:untagged-error-kind", f"untagged parameter raised {type(e).__name__}, expected ValueError", key)
+
+    # ---------------- correspondence: the scalars relating Linear / LinearReadout to torch.nn.Linear are the model's
+    if ctx.driver_ok and lin_scalars:
+        from ..common import b2f
+        for (key, sc, _), r in zip(lin_scalars, driver.ask([rq for _, _, rq in lin_scalars])):
+            if "err" in r:
+                continue
+            want_s = [b2f(r["fwd"])] + [b2f(v) for v in r["bwd"]][: len(sc) - 1]
+            if any((not math.isnan(a_)) and abs(a_ - b_) > 1e-10 * abs(b_) for a_, b_ in zip(sc, want_s)):
+                ctx.disagree("module_scalars", key, want_s, sc, ["USProofs.C08.constraint_forwarded"])
 
     # ---------------- correspondence: the model's table vs the live classes
     if ctx.driver_ok:
